@@ -1,4 +1,5 @@
 import JSL.Inv.Offers
+import JSL.Inv.EnvReach
 import JSL.Props.Example
 import JSL.Props.C18
 
